@@ -121,6 +121,10 @@ pub struct DiskState {
     pub n_write: u64,
     /// Running digest of every access and every byte written.
     pub digest: u64,
+    /// `selftest fsmodel` only: when set, this disk is a *real* directory (the XDG root);
+    /// nothing is simulated, riti goes through the real std::fs, and the harness's own
+    /// accesses (`get`, `put`, `fork`) are real file operations with explicit mtimes.
+    pub mirror: Option<String>,
 }
 
 impl Default for DiskState {
@@ -139,8 +143,22 @@ impl Default for DiskState {
             n_open: 0,
             n_write: 0,
             digest: 0xcbf2_9ce4_8422_2325,
+            mirror: None,
         }
     }
+}
+
+static MIRROR_SEQ: std::sync::atomic::AtomicU64 = std::sync::atomic::AtomicU64::new(0);
+
+fn mirror_path(root: &str, f: FileId) -> String {
+    format!(
+        "{}/openbangla-keyboard/{}",
+        root,
+        match f {
+            FileId::Store => STORE_NAME,
+            FileId::Autocorrect => AC_NAME,
+        }
+    )
 }
 
 #[derive(Clone)]
@@ -166,14 +184,46 @@ impl SimDisk {
         SimDisk(Rc::new(RefCell::new(DiskState::default())))
     }
 
+    /// A real directory under `base` instead of a simulated disk (selftest fsmodel).
+    pub fn new_mirror(base: &str) -> Self {
+        let n = MIRROR_SEQ.fetch_add(1, std::sync::atomic::Ordering::SeqCst);
+        let root = format!("{}/d{}", base, n);
+        std::fs::create_dir_all(format!("{}/openbangla-keyboard", root)).expect("mirror dir");
+        let d = SimDisk::new();
+        d.0.borrow_mut().mirror = Some(root);
+        d
+    }
+
+    pub fn is_mirror(&self) -> bool {
+        self.0.borrow().mirror.is_some()
+    }
+
     /// The fork primitive: an independent copy of the disk as of now.
     pub fn fork(&self) -> SimDisk {
+        let mirror = self.0.borrow().mirror.clone();
+        if let Some(root) = mirror {
+            let base = std::path::Path::new(&root).parent().unwrap().to_str().unwrap().to_string();
+            let d = SimDisk::new_mirror(&base);
+            d.0.borrow_mut().now = self.0.borrow().now;
+            for f in [FileId::Store, FileId::Autocorrect] {
+                if let Some(b) = self.get(f) {
+                    d.put(f, Some(b), self.mtime(f));
+                }
+            }
+            return d;
+        }
         let mut st = self.0.borrow().clone();
         st.writes.clear();
         SimDisk(Rc::new(RefCell::new(st)))
     }
 
     pub fn install(&self) {
+        if let Some(root) = &self.0.borrow().mirror {
+            // the user-data directory is read from the environment when a Config is made
+            riti::verif_fs::install(None);
+            std::env::set_var("XDG_DATA_HOME", root);
+            return;
+        }
         let rc: Rc<dyn SimFs> = Rc::new(self.clone());
         riti::verif_fs::install(Some(rc));
     }
@@ -192,15 +242,41 @@ impl SimDisk {
     }
 
     pub fn get(&self, f: FileId) -> Option<Vec<u8>> {
+        if let Some(root) = &self.0.borrow().mirror {
+            return std::fs::read(mirror_path(root, f)).ok();
+        }
         self.0.borrow().files[f.ix()].as_ref().map(|e| e.bytes.clone())
     }
 
     pub fn mtime(&self, f: FileId) -> Option<u64> {
+        if let Some(root) = &self.0.borrow().mirror {
+            return std::fs::metadata(mirror_path(root, f))
+                .ok()
+                .and_then(|m| m.modified().ok())
+                .and_then(|t| t.duration_since(SystemTime::UNIX_EPOCH).ok())
+                .map(|d| d.as_nanos() as u64);
+        }
         self.0.borrow().files[f.ix()].as_ref().map(|e| e.mtime)
     }
 
     /// External modification (the editor, the fault injector): bypasses armed faults.
     pub fn put(&self, f: FileId, bytes: Option<Vec<u8>>, mtime: Option<u64>) {
+        let mirror = self.0.borrow().mirror.clone();
+        if let Some(root) = mirror {
+            let p = mirror_path(&root, f);
+            match bytes {
+                None => {
+                    let _ = std::fs::remove_file(&p);
+                }
+                Some(b) => {
+                    std::fs::write(&p, &b).expect("mirror write");
+                    let t = to_system_time(mtime.unwrap_or(self.0.borrow().now));
+                    let file = std::fs::OpenOptions::new().write(true).open(&p).expect("mirror open");
+                    file.set_modified(t).expect("mirror set_modified");
+                }
+            }
+            return;
+        }
         let mut st = self.0.borrow_mut();
         let now = st.now;
         st.files[f.ix()] = bytes.map(|b| FileEnt {
